@@ -358,7 +358,9 @@ def _report(prop_id, tier, units, out):
     out.functions_encoded.append({"generated": "w.rs per configuration (the real output of crates/rust for the corpus world)",
                                   "sha256": [c["bindings_sha256"] for c in out.extra["configs"]]})
     out.bounds = {
-        "direction": "export glue (_export_<f>_cabi, __post_return_<f>) for value types; import wrappers only for the resource calls of C07",
+        "direction": "export glue (_export_<f>_cabi, __post_return_<f>) for value types; import wrappers (through the generator hook) for: "
+                     "resource calls (own/borrow parameters, own results, constructor, method), own handles inside list<own<r>> and "
+                     "list<record { own<r>, u32 }> parameters (2 concrete elements), map<u32,u64> nested in option<..> / list<..> parameters (1 concrete entry)",
         "pointer_width": "8 only (host layout; generated code uses size_of::<*const u8>())",
         "corpus": "one function per type class, enumerated: %d classes in this tier (rustgen/corpus.py); the 12 scalar types are C14's" %
                   len({m["class"] for u in units for m in u["harnesses"].values()}),
@@ -368,17 +370,19 @@ def _report(prop_id, tier, units, out):
     }
     out.outside_claim = [
         "wasm32 layout of the compiled code (pointer width 4): the same instruction stream at P=4 is covered by C01/abisym",
-        "import direction of value types (lower-args / lift-results of import wrappers): not driven, although the generator hook would allow it",
+        "import direction of value types beyond the shapes listed under bounds.direction (lower-args / lift-results of the other import wrappers are not driven)",
         "'as judged by an independent component-model host': no wasm toolchain or host in the sandbox; the harness is the host",
         "borrow<exported resource> arguments and `self` of exported methods: the glue rebuilds the rep with `arg as u32 as usize`, "
         "which cannot carry a 64-bit host pointer; only 'nothing is dropped' is checked for them",
-        "map<K,V> beyond the thorough tier's two harnesses (default BTreeMap map type, CONCRETE entry count 0 or 1, symbolic key/value/padding): "
+        "map<K,V> beyond four harnesses (default BTreeMap map type, CONCRETE entry count 0 or 1, symbolic key/value/padding: export round trip, "
+        "import parameters option<map> and list<map>): "
         "measured here -- BTreeMap with a symbolic length <= 1 is killed at the 16 GB cap after 225 s of CBMC; "
         "map_type=std::collections::HashMap with one concrete entry times out at 600 s (RandomState/SipHash, 12 foreign functions)",
         "raw_strings with an exported function RETURNING a string: the generated text does not compile (`Vec<u8>::into_bytes` in StringLower; "
         "upstream TODO in tests/runtime/rust/raw-strings/test.rs), so the raw_strings worlds contain string parameters only",
-        "lists whose elements own heap data (list<string>, list<list<T>>): with <= 2 elements of <= 2 bytes CBMC aborts at the 12 GB cap (measured); "
-        "heap data nested in records/variants/tuples/options/results IS covered",
+        "lists whose elements own heap data with a SYMBOLIC length (list<string> with <= 2 elements of <= 2 bytes aborts CBMC at the 12 GB cap, measured): "
+        "covered only as list<record { u64, string }> with exactly 2 elements and strings of <= 1 byte (parameter and result); "
+        "heap data nested in records/variants/tuples/options/results is covered with symbolic lengths",
         "async, futures/streams, error-context handles",
         "types and option combinations outside the enumerated corpus; lists longer than the bound; strings longer than 2 bytes",
         "UTF-8 validation inside String::from_utf8 (stubbed, see assumptions)",
